@@ -389,6 +389,12 @@ def main(argv):
             if prop == "C09" and rep.get("subjects", 0) > 0:
                 import ccengine
                 ccengine.run_c09x(tier, rep)
+            if prop == "C03" and rep.get("subjects", 0) > 0:
+                import ccengine
+                ccengine.run_c03x(tier, rep)
+            if prop == "C14" and rep.get("subjects", 0) > 0:
+                import ccengine
+                ccengine.run_c14x(tier, rep)
             if prop == "C12" and rep.get("subjects", 0) > 0:
                 # permission part ("only permitted together with finite"): in-process expansion of every
                 # finite-less float declaration x every derive set containing Eq or Ord
